@@ -320,3 +320,81 @@ func H_C09_analysis_elements_lists() {
 	}
 	vReach("end")
 }
+
+// H_C09_two_column_pages: on concrete two-column pages - shared or staggered baselines, an optional larger heading that
+// falls between two baselines of the other column, an optional full-width title - every fragment is assigned exactly once
+// by column detection and appears exactly once in reading order, paragraphs, analysis elements and their texts.
+//
+//symgo:harness prop=C09 kernel=K7-two-column-pages
+//symgo:desc concrete pages (enumerated, no symbolic data): left column of 3..4 lines at x=72 on a 14 pt grid, right column of 3 lines at x=330 whose baselines are shifted by 0 or 7 pt (enumerated), optionally a 16 pt heading in the right column placed between two left-column baselines, optionally a full-width title above; fragments streamed column by column: each fragment's word occurs exactly once in Columns+SpanningFragments, in GetFragmentsInReadingOrder, in ReadingOrderResult.Fragments and GetText, in the reading-order paragraphs' text and in the analysis elements' text
+func H_C09_two_column_pages() {
+	var frags []text.TextFragment
+	var words []string
+	add := func(w string, x, y, width, h float64) {
+		frags = append(frags, text.TextFragment{Text: w, X: x, Y: y, Width: width, Height: h, FontSize: h, FontName: "F1"})
+		words = append(words, w)
+	}
+	if vAnyIntIn(0, 1) == 1 {
+		add("TITLEWORD", 72, 740, 470, 18)
+	}
+	nl := vAnyIntIn(3, 4)
+	for i := 0; i < nl; i++ {
+		add("left"+string(rune('A'+i)), 72, 700-14*float64(i), 200, 12)
+	}
+	shift := 7.0 * float64(vAnyIntIn(0, 1))
+	if vAnyIntIn(0, 1) == 1 {
+		add("HEADWORD", 330, 693, 180, 16) // between the left column's baselines 700 and 686
+	}
+	for i := 0; i < 3; i++ {
+		add("right"+string(rune('A'+i)), 330, 672-shift-14*float64(i), 200, 12)
+	}
+	count := func(fs []text.TextFragment, w string) int {
+		n := 0
+		for _, f := range fs {
+			if f.Text == w {
+				n++
+			}
+		}
+		return n
+	}
+	countStr := func(s, sub string) int {
+		n := 0
+		for i := 0; i+len(sub) <= len(s); i++ {
+			if s[i:i+len(sub)] == sub {
+				n++
+			}
+		}
+		return n
+	}
+	cl := NewColumnDetector().Detect(append([]text.TextFragment{}, frags...), 612, 792)
+	vAssert("layout", cl != nil)
+	var assigned []text.TextFragment
+	for _, c := range cl.Columns {
+		assigned = append(assigned, c.Fragments...)
+	}
+	assigned = append(assigned, cl.SpanningFragments...)
+	inOrder := cl.GetFragmentsInReadingOrder()
+	ro := NewReadingOrderDetector().Detect(append([]text.TextFragment{}, frags...), 612, 792)
+	vAssert("reading-order", ro != nil)
+	roText := ro.GetText()
+	paraText := ""
+	if pl := ro.GetParagraphs(); pl != nil {
+		for _, p := range pl.Paragraphs {
+			paraText += p.Text + "\n"
+		}
+	}
+	res := NewAnalyzer().Analyze(append([]text.TextFragment{}, frags...), 612, 792)
+	elemText := ""
+	for _, e := range res.Elements {
+		elemText += e.Text + "\n"
+	}
+	for _, w := range words {
+		vAssert("fragment-in-exactly-one-column-or-spanning-group", count(assigned, w) == 1)
+		vAssert("fragment-once-in-column-reading-order", count(inOrder, w) == 1)
+		vAssert("fragment-once-in-reading-order-result", count(ro.Fragments, w) == 1)
+		vAssert("text-once-in-reading-order-text", countStr(roText, w) == 1)
+		vAssert("text-once-in-paragraphs", countStr(paraText, w) == 1)
+		vAssert("text-once-in-analysis-elements", countStr(elemText, w) == 1)
+	}
+	vReach("end")
+}
